@@ -84,6 +84,46 @@ def body(run):
         if worst:
             run.add_violation('corrected image differs from a * source + b although the reference is exactly a * x + b', desc, observed=worst,
                               signature=dict(kind='linear-recovery', model=model, nan=bool(np.isnan(worst['corrected']))))
+    # (c) processing on the SOURCE grid (x = the source itself): same-grid pairs (reference = a * source + b on the source's window of the
+    #     reference grid, arbitrary valid values around it and UNDER the source's invalid pixels), the source's invalid pixels stored as NaN, as a
+    #     numeric nodata value or under an internal mask, several blocks
+    for k in range(run.scale(12, 120)):
+        model = ik.MODELS[k % 3]
+        kshape = rng.choice([(3, 3), (1, 3), (5, 3), (3, 5)]) if model != 'gain-offset' else rng.choice([(3, 3), (5, 3), (3, 5)])
+        res_ = rng.choice([0.5, 1.0, 2.0])
+        sh = (rng.randint(14, 30), rng.randint(14, 30))
+        off = (rng.randint(1, 4), rng.randint(1, 4))
+        g = synth.Geom(res_, 1, *rng.choice([(16.0, 48.0), (4.0, 100.0)]), (off[0] + sh[0] + rng.randint(1, 4), off[1] + sh[1] + rng.randint(1, 4)), off, sh)
+        a, c = rng.choice([0.5, 1.5, 2.0, 3.25]), (0.0 if model == 'gain' else rng.choice([0.0, 4.0, 17.5]))
+        src = fz.texture(rng, sh, 1, lo=20, hi=200)
+        sm = fz.src_mask(rng, sh, rng.choice(['holes', 'holes', 'border', 'islands']))
+        ref = fz.texture(rng, g.ref_shape, 1, lo=30, hi=180).astype('float64')
+        ref[0, off[0]:off[0] + sh[0], off[1]:off[1] + sh[1]] = a * src[0].astype('float64') + c
+        enc = [dict(encoding='nan'), dict(encoding='nodata', nodata=-9999.0), dict(encoding='nodata', nodata=0.0), dict(encoding='mask', hidden=77.0)][k % 4]
+        sfn, rfn = run.work / 'sg_src.tif', run.work / 'sg_ref.tif'
+        synth.write_tif(sfn, src, g.src_transform, mask=sm, **enc)
+        synth.write_tif(rfn, ref.astype('float32'), g.ref_transform)
+        try:
+            mbm, nblk = fz.pick_block_mem(sfn, rfn, 'src', rng.choice([1, 4, 9]), kshape)
+            res = fz.fuse(sfn, rfn, run.work / 'sg.tif', model=model, kernel_shape=kshape, proc_crs='src', max_block_mem=mbm, threads=rng.choice([1, 3]),
+                          param=False, model_config=dict(r2_inpaint_thresh=0.25))
+        except Exception as ex:
+            dist['skipped:' + type(ex).__name__] = dist.get('skipped:' + type(ex).__name__, 0) + 1
+            continue
+        desc = dict(geom=g.describe(), model=model, kernel_shape=list(kshape), coefficients=[a, c], processing_grid='src', source_encoding=enc, blocks=nblk,
+                    max_block_mem=mbm)
+        key = f'src-grid/{model}/{enc.get("encoding")}{enc.get("nodata", "")}'
+        dist[key] = dist.get(key, 0) + 1
+        run.count_case(('sg', k), True, desc if k < 2 else None)
+        exp = a * src[0].astype('float64') + c
+        got = res['corr']['array'][0].astype('float64')
+        tol = 1e-3 if model == 'gain-offset' else 2e-5
+        bad_px = sm & ~(np.abs(got - exp) / (np.abs(exp) + 1.0) <= tol)
+        if bad_px.any():
+            r, cc = [int(v) for v in np.argwhere(bad_px)[0]]
+            run.add_violation('corrected image differs from a * source + b although the reference is exactly a * x + b', desc,
+                              observed=dict(pixel=[r, cc], corrected=float(got[r, cc]), expected=float(exp[r, cc]), n_bad=int(bad_px.sum()), tolerance=tol),
+                              signature=dict(kind='linear-recovery', model=model, nan=bool(np.isnan(got[r, cc])), grid='src'))
     run.cov['evaluations'] += ncorr
     run.cov['rule'] = ('real fusions where the reference is rewritten as a * x + b (x = the NaN-padded source down-sampled with the pipeline\'s own call), '
                        'per band (a, b), ratios {1, 1.7, 2, 2.5, 3, 4.3}, sub-pixel offsets, origins up to 7.6e6, holes / borders / islands, kernels incl. h != w, '
